@@ -110,3 +110,28 @@ pub fn c14_bufwriter_bypass(w: &mut std::io::BufWriter<std::fs::File>) -> std::i
 pub fn c15_pair_max(a: (u64, u64), b: (u64, u64)) -> (u64, u64) {
     a.max(b)
 }
+
+// ---- C05-R11: persistent state moved out of self, not restored on the error path ----------------------
+pub struct C05Chain {
+    pub state: Vec<f64>,
+}
+
+impl C05Chain {
+    pub fn c05_state_moved_out(&mut self, f: &dyn Fn(&[f64]) -> Result<f64, String>) -> Result<Vec<f64>, String> {
+        let current = std::mem::replace(&mut self.state, Vec::new());
+        let v = f(&current)?;
+        let mut next = current;
+        next.push(v);
+        Ok(next)
+    }
+
+    pub fn c05_state_moved_out_restored(&mut self, f: &dyn Fn(&[f64]) -> Result<f64, String>) -> Result<(), String> {
+        let current = std::mem::replace(&mut self.state, Vec::new());
+        let r = f(&current);
+        self.state = current;
+        let v = r?;
+        self.state.push(v);
+        Ok(())
+    }
+}
+
